@@ -208,13 +208,13 @@ PROPS = {
             {'engine': 'verus', 'name': 'leader', 'tier': 'quick', 'role': 'IterationLeader::{process_updates, final_result, next}: one delta per end replica folded once per round, stop iff !cond || bound, feedback to every sender once per round, final state once then FlushAndRestart, restart'},
             {'engine': 'verus', 'name': 'iteration_end', 'tier': 'quick', 'role': 'IterationEnd::next: deltas forwarded to the leader, exactly one default delta when the replica saw no element'},
             {'engine': 'verus', 'name': 'replay', 'tier': 'quick', 'role': 'Replay::{input_next, wait_update, next}: round 1 forwards and records the input; later rounds re-feed exactly the recording in order; state lock taken when a round\'s FlushAndRestart goes out; a new round only after the leader\'s verdict was synchronised; Finished drops the recording'},
-            {'engine': 'verus', 'name': 'iterate', 'tier': 'quick', 'role': 'Iterate::{next_input, next_stored, feedback_finished, next}: round 1 forwards the outside input FIFO; later rounds feed back exactly the previous round\'s feedback (up to its FlushAndRestart) in order; new round only after the synchronised verdict; Finished sends the last round\'s elements to the output block in one batch'},
+            {'engine': 'verus', 'name': 'iterate', 'tier': 'quick', 'role': 'Iterate::{input_or_feedback, wait_update, next_input, next_stored, feedback_finished, next}: round 1 forwards the outside input FIFO; later rounds feed back exactly the previous round\'s feedback (up to its FlushAndRestart) in order; new round only after the synchronised verdict; Finished sends the last round\'s elements to the output block in one batch'},
         ],
         'explanation': 'NARROWED scope: Verus proofs of the sequential leader / end / replay / iterate logic of a loop (any number of end replicas and feedback senders, any closures): a round consumes exactly one delta per end '
                        'replica and folds each once in arrival order, the loop stops exactly when the condition is false or the bound is reached, every feedback sender gets the verdict and the state once per '
                        'round, the final state is output once followed by FlushAndRestart and the leader restarts. The central sentence of C10 - every replica on every host evaluates round k against exactly '
                        'the state of round k-1 - is a cross-thread protocol (IterationStateLock, barrier, UnsafeCell) and is NOT decided.',
-        'assumptions': ['stale/newer state reads across threads and hosts (IterationStateHandler: lock, barrier, UnsafeCell): not decided - the handler is the environment of unit replay', 'Iterate::input_or_feedback / wait_update (select over the links with stashing of early input): used through ASSUMED append-only contracts, their select logic is not verified'],
+        'assumptions': ['stale/newer state reads across threads and hosts (IterationStateHandler: lock, barrier, UnsafeCell): not decided - the handler is the environment of unit replay', 'Iterate::input_or_feedback / wait_update are verified (each link\'s batch is appended whole, in order, to its own stash; early input is stashed while waiting for the verdict); not pinned: a received batch that is silently dropped'],
     },
     'C11': {
         'level': 'proof',
